@@ -740,7 +740,8 @@ class _Smooth(_Algorithm):
         # logspace still works when max_iter=1; use ceil rather than using dtype=int
         # in logspace since the int casting will floor the result and cause several half
         # windows of 1
-        half_windows = np.ceil(np.logspace(np.log10(half_win), 0, max_iter)).astype(int)
+        # half_win can be 0 if there are less than 3 sections, so ensure log10 is defined
+        half_windows = np.ceil(np.logspace(np.log10(max(half_win, 1)), 0, max_iter)).astype(int)
         half_windows[0] = half_win  # rounding issues can shift initial half window +- 1
 
         for half_win in half_windows:
